@@ -148,6 +148,13 @@ where
     }
 }
 
+#[cfg(bma400_verif)]
+impl AccConfig {
+    pub(crate) fn verif_regs(&self) -> [(u8, u8); 3] {
+        verif_regs!(self; acc_config0, acc_config1, acc_config2)
+    }
+}
+
 #[cfg(test)]
 mod tests {
     use super::*;
